@@ -10,18 +10,18 @@ E2 = '{"e1", "e2"}'
 INVS = "Bounded PreparedOnce FailedNotCached FailedReported ExecAttribution ArityChecked Justified NoStuck"
 
 # model passes: (name, SPECIFICATION, Execs, MaxLRU, MaxForget, MaxFail, Cancellable, UniqueIds, Plans, PROPERTY)
+# Spec = every interleaving; SpecPOR = local steps first (MC_Prepare.tla); Fair* + Terminates = liveness
 MODEL_QUICK = [
     ("full_lru1", "Spec", E3, 1, 1, 1, "{}", "TRUE", "PlansCore", ""),
-    ("por_lru1", "SpecPOR", E3, 1, 1, 1, "{}", "TRUE", "PlansMore", ""),
-    ("por_lru2", "SpecPOR", E3, 2, 1, 1, "{}", "FALSE", "PlansAll", ""),
-    ("two_lru1", "Spec", E2, 1, 2, 1, '{"e2"}', "TRUE", "PlansSmall", ""),
+    ("por_lru2", "SpecPOR", E3, 2, 1, 1, "{}", "FALSE", "PlansMost", ""),
     ("live_two", "FairSpec", E2, 1, 2, 1, '{"e2"}', "TRUE", "PlansSmall", "Terminates"),
 ]
 MODEL_THOROUGH = [
-    ("por_lru1_f2", "SpecPOR", E3, 1, 2, 1, "{}", "TRUE", "PlansAll", ""),
-    ("por_lru2_f2", "SpecPOR", E3, 2, 2, 1, "{}", "TRUE", "PlansAll", ""),
-    ("full_lru2", "Spec", E3, 2, 1, 1, "{}", "TRUE", "PlansCore", ""),
-    ("por_cancel", "SpecPOR", E3, 1, 2, 1, '{"e2"}', "FALSE", "PlansCore", ""),
+    ("por_lru1_f2", "SpecPOR", E3, 1, 2, 1, "{}", "TRUE", "PlansMost", ""),
+    ("por_lru2_f2", "SpecPOR", E3, 2, 2, 1, "{}", "TRUE", "PlansMost", ""),
+    ("por_two_batches", "SpecPOR", E3, 2, 1, 0, "{}", "TRUE", "PL7", ""),
+    ("full_lru2", "Spec", E3, 2, 1, 1, "{}", "FALSE", "PlansCore", ""),
+    ("por_cancel", "SpecPOR", E3, 2, 2, 1, '{"e2"}', "TRUE", "PL2", ""),
     ("two_lru2", "Spec", E2, 2, 2, 1, '{"e2"}', "FALSE", "PlansSmall", ""),
     ("live_three", "FairSpecPOR", E3, 1, 1, 1, "{}", "TRUE", "PlansCore", "Terminates"),
 ]
@@ -33,7 +33,7 @@ TARGETS = [
     ("join-failing", "N_JoinFailing", "PL1", 1, 0, 1),
     ("unprepared-twice", "N_UnpreparedTwice", "PL1", 2, 1, 0),
     ("unprepared-inflight", "N_UnpreparedInflight", "PL1", 2, 1, 0),
-    ("batch-thrash", "N_BatchThrash", "PL6", 1, 1, 0),
+    ("batch-thrash", "N_BatchThrash", "PS3", 1, 1, 0),
     ("arity", "N_Arity", "PL5", 2, 0, 0),
 ]
 
@@ -110,16 +110,14 @@ def translate(plan, steps, name, n, maxlru, uniq):
         if a["a"] == "Forget":
             c["key"] = [a["k"][0], KS[a["k"][1]], a["k"][2]]
         out.append(c)
-    final = steps[-1][1] if steps else None
-    return dict(n=n, name=name, max=maxlru, uniq=uniq, hosts=hosts, conns=conns, execs=execs, steps=out,
-                nprep=_fix(final["nprep"]) if final else {})
+    return dict(n=n, name=name, max=maxlru, uniq=uniq, hosts=hosts, conns=conns, execs=execs, steps=out)
 
 
 def _target(ctx, t):
     name, inv, plans, lru, fg, fl = t
     cfg = _write_cfg(ctx, "Gen_Prepare_t_%s.cfg" % name, "GenSpec", E3, lru, fg, fl, "{}", "TRUE", plans, inv=inv)
     dump = os.path.join(ctx.tmp, "target_%s.json" % name)
-    r = vf.run_tlc(ctx, "Gen_Prepare", cfg, workers=1, timeout=600, heap="3g", name="gen_" + name,
+    r = vf.run_tlc(ctx, "Gen_Prepare", cfg, workers=1, timeout=900, heap="3g", name="gen_" + name,
                    extra=["-dumpTrace", "json", dump, "-noGenerateSpecTE"], quiet=True)
     if r.violated != inv or not os.path.exists(dump):
         raise vf.Inconclusive("TLC found no behaviour for target %s (%s %s)\n%s" % (name, r.violated, r.error, r.out[-1500:]))
@@ -131,13 +129,12 @@ def _target(ctx, t):
 def _walks(ctx, lru, uniq, num, seed):
     cfg = _write_cfg(ctx, "Gen_Prepare_w_%d_%s.cfg" % (lru, uniq), "WalkSpec", E3, lru, 2, 1, '{"e2"}', uniq, "PlansAll",
                      inv="EmitWalk")
-    r = vf.run_tlc(ctx, "Gen_Prepare", cfg, workers=1, timeout=900, heap="3g", simulate="num=%d" % num, depth=300,
+    r = vf.run_tlc(ctx, "Gen_Prepare", cfg, workers=1, timeout=1200, heap="3g", simulate="num=%d" % num, depth=300,
                    name="walk_%d_%s" % (lru, uniq), extra=["-seed", str(seed)], quiet=True)
     if not r.ok:
         raise vf.Inconclusive("walk generation failed: %s\n%s" % (r.error or r.violated, r.out[-1500:]))
-    ws = vf.tlc_printed(r.out, "WALK")
     seen, res = set(), []
-    for w in ws:
+    for w in vf.tlc_printed(r.out, "WALK"):
         k = json.dumps(w, sort_keys=True)
         if k not in seen:
             seen.add(k)
@@ -183,12 +180,69 @@ def _summary(out, what):
     return json.loads(m.group(1))
 
 
+def _report(ctx, viols, drifts, blocks, byname):
+    """MONVIOL -> violations (one per scenario and kind), MONDRIFT -> drift (first note of a scenario)."""
+    seen = set()
+    for v in viols:
+        key, what = KEYS.get(v["v"], ("trace-" + v["v"], v["v"]))
+        blk = blocks.get(v["scn"], [])
+        if (v["scn"], key) in seen:
+            continue
+        seen.add((v["scn"], key))
+        head = blk[0] if blk else {}
+        ctx.violation(key, "%s [%s scenario %s%s, cache size %s, executor %s, key %s]" % (
+            what, head.get("mode", "?"), v["scn"], (" " + head["name"]) if head.get("name") else "", head.get("cap", "?"),
+            v["e"], "/".join(v["key"])),
+            dict(kind=v["v"], scenario=head, trace=blk[:800],
+                 behaviour=byname.get(v["scn"] - 100000) if v["scn"] > 100000 else None))
+    dseen = set()
+    for d in drifts:
+        if d["scn"] in dseen:
+            continue
+        dseen.add(d["scn"])
+        blk = blocks.get(d["scn"], [])
+        ctx.add_drift("scenario %s (%s): the code did not follow Prepare.tla: %s (executor %s, key %s)" % (
+            d["scn"], blk[0].get("mode", "?") if blk else "?", d["d"], d["e"], "/".join(d["key"])))
+    return dseen
+
+
+def _replay(ctx):
+    """--replay: the TLC behaviours stored in a replay file are forced onto the current code again and TLC
+    re-evaluates the traces (the fresh ones of the behaviours, the recorded ones of free-running scenarios)."""
+    rp = json.load(open(ctx.replay))
+    recs, behs = [], {}
+    for v in rp.get("violations", []):
+        d = v.get("detail") or {}
+        if d.get("behaviour"):
+            behs[d["behaviour"]["n"]] = d["behaviour"]
+        elif d.get("trace"):
+            recs += d["trace"]
+    vf._scratch_spec_dir(ctx, "w")
+    if behs:
+        sp = os.path.join(ctx.tmp, "c14_scenarios.ndjson")
+        vf.write_ndjson(sp, list(behs.values()))
+        binary = vf.build_gotest(ctx, ".", ["common", "c14"])
+        rc, out = vf.run_gotest(ctx, binary, "^TestVfC14Replay$", {"VF_C14_SCENARIOS": sp, "VF_C14_PAR": 1}, 600)
+        ctx.log("replayed %d behaviours on the current code: %s" % (len(behs), _summary(out, "replay")))
+        recs += vf.read_ndjson(os.path.join(ctx.tmp, "c14_replay.ndjson"))
+    if not recs:
+        raise vf.Inconclusive("the replay file holds no trace")
+    paths, blocks = _shard(ctx, recs, 1, "replay")
+    v, d, n, r = _monitor(ctx, paths[0], "replay")
+    _report(ctx, v, d, blocks, behs)
+    ctx.cov = dict(states=r.distinct, transitions=r.generated,
+                   traces_validated_against_impl=len(blocks) - len({x["scn"] for x in v}),
+                   samples=[dict(kind="replayed scenario", scenario=(list(blocks.values())[0][0] if blocks else None))])
+
+
 def run(ctx):
     quick = ctx.tier == "quick"
     ctx.level = "model_checking"
+    if getattr(ctx, "replay", None):
+        return _replay(ctx)
     models = MODEL_QUICK + ([] if quick else MODEL_THOROUGH)
     nwalk = 30 if quick else 400
-    nfree = 24 if quick else 320
+    nfree = 24 if quick else 400
     pool = cf.ThreadPoolExecutor(max_workers=6 if quick else 8)
     vf._scratch_spec_dir(ctx, "w")   # create the scratch copy of spec/ before the threads use it
 
@@ -196,7 +250,7 @@ def run(ctx):
     fut_build = pool.submit(vf.build_gotest, ctx, ".", ["common", "c14"])
     fut_targets = [pool.submit(_target, ctx, t) for t in TARGETS]
     fut_walks = [pool.submit(_walks, ctx, lru, uq, nwalk // 2, ctx.seed * 7919 + lru) for lru, uq in ((1, "TRUE"), (2, "FALSE"))]
-    fut_models = [pool.submit(_model_pass, ctx, m, 4 if quick else 8, 600 if quick else 3000, "4g" if quick else "10g")
+    fut_models = [pool.submit(_model_pass, ctx, m, 4 if quick else 6, 900 if quick else 3000, "4g" if quick else "8g")
                   for m in models]
 
     # ---- 2. behaviours -> scenarios
@@ -218,13 +272,10 @@ def run(ctx):
 
     # ---- 3. drive the real code: replay of the behaviours, free-running seeded scenarios
     binary = fut_build.result()
-    f_rep = pool.submit(vf.run_gotest, ctx, binary, "^TestVfC14Replay$", {"VF_C14_SCENARIOS": sp, "VF_C14_PAR": 4}, 1200)
-    f_free = pool.submit(vf.run_gotest, ctx, binary, "^TestVfC14Free$", {"VF_C14_SCEN": nfree, "VF_C14_PAR": 4}, 1200)
+    f_rep = pool.submit(vf.run_gotest, ctx, binary, "^TestVfC14Replay$", {"VF_C14_SCENARIOS": sp, "VF_C14_PAR": 4}, 1500)
+    f_free = pool.submit(vf.run_gotest, ctx, binary, "^TestVfC14Free$", {"VF_C14_SCEN": nfree, "VF_C14_PAR": 4}, 1500)
     rc1, out1 = f_rep.result()
     rc2, out2 = f_free.result()
-    for o, w in ((out1, "replay"), (out2, "free")):
-        if "panic:" in o and "VFSUMMARY" not in o:
-            raise vf.Inconclusive("%s driver crashed:\n%s" % (w, o[-3000:]))
     s_rep, s_free = _summary(out1, "replay"), _summary(out2, "free")
     ctx.log("replay: %s" % s_rep)
     ctx.log("free: %s" % s_free)
@@ -251,7 +302,7 @@ def run(ctx):
         recs += vf.read_ndjson(p)
     if sum(1 for r in recs if r["ev"] == "n_execute") == 0 or sum(1 for r in recs if r["ev"] == "c_miss") == 0:
         raise vf.Inconclusive("the drivers recorded no PREPARE/EXECUTE activity")
-    paths, blocks = _shard(ctx, recs, 6 if quick else 12, "all")
+    paths, blocks = _shard(ctx, recs, 3 if quick else 10, "all")
     viols, drifts, lines = [], [], 0
     mons = list(pool.map(lambda p: _monitor(ctx, p, os.path.basename(p)[:-7]), paths))
     for (v, d, n, r), p in zip(mons, paths):
@@ -261,32 +312,10 @@ def run(ctx):
         viols += v
         drifts += d
         lines += n
-    bad_scn = {d["scn"] for d in drifts} | {v["scn"] for v in viols}
     ctx.log("monitor: %d scenarios, %d events evaluated by TLC; %d violations, %d drift notes" % (
         len(blocks), lines, len(viols), len(drifts)))
-
-    seen = set()
-    for v in viols:
-        key, what = KEYS.get(v["v"], ("trace-" + v["v"], v["v"]))
-        blk = blocks.get(v["scn"], [])
-        mode = blk[0].get("mode", "?") if blk else "?"
-        if (v["scn"], key) in seen:
-            continue
-        seen.add((v["scn"], key))
-        # position inside the scenario: events are in order, find the event by executor/key around the line
-        ctx.violation(key, "%s [%s scenario %s%s, cache size %s, executor %s, key %s]" % (
-            what, mode, v["scn"], (" " + blk[0].get("name", "")) if blk and blk[0].get("name") else "",
-            blk[0].get("cap") if blk else "?", v["e"], "/".join(v["key"])),
-            dict(kind=v["v"], scenario=blk[0] if blk else None, trace=blk[:600],
-                 behaviour=byname.get(v["scn"] - 100000) if v["scn"] > 100000 else None))
-    dseen = set()
-    for d in drifts:
-        if d["scn"] in dseen:
-            continue
-        dseen.add(d["scn"])
-        blk = blocks.get(d["scn"], [])
-        ctx.add_drift("scenario %s (%s): the code did not follow Prepare.tla: %s (executor %s, key %s)" % (
-            d["scn"], blk[0].get("mode", "?") if blk else "?", d["d"], d["e"], "/".join(d["key"])))
+    dseen = _report(ctx, viols, drifts, blocks, byname)
+    bad_scn = dseen | {v["scn"] for v in viols}
 
     # ---- 5. model passes
     states = trans = 0
@@ -304,10 +333,9 @@ def run(ctx):
     pool.shutdown()
 
     sample_scn = scenarios[0] if scenarios else None
-    clean = len(blocks) - len(bad_scn)
     ctx.cov = dict(
         states=states, transitions=trans,
-        traces_validated_against_impl=clean,
+        traces_validated_against_impl=len(blocks) - len(bad_scn),
         model_configs=mcs,
         behaviours_from_tlc=len(scenarios), target_behaviours=ntarget, behaviours_followed_by_code=followed,
         commands_replayed=sum(r["steps"] for r in results),
